@@ -199,6 +199,96 @@ def m_is_whitespace(ex, st, callee, args):
     return [(w, boolv(True)), (z3.Not(w), boolv(False))]
 
 
+# ---------------------------------------------------------------- iterator adaptors that take closures (closures are pure here)
+def _closure_or_fail(ex, callee):
+    fn = ex.closure_fn(callee)
+    if fn is None:
+        raise Inconclusive("no MIR item for the closure in " + callee)
+    return fn
+
+
+def _iter_items(ex, st, it):
+    """remaining items of a CharsIter / SliceIter value (or reference to one) as a list of values"""
+    v = it
+    n = 0
+    while isinstance(v, Ref) and n < 6:
+        v = ex.read(st, v.cell, v.path)
+        n += 1
+    if isinstance(v, Adt) and v.ty == "CharsIter":
+        s_, idx = v.fields
+        return list(s_.fields[z3.simplify(idx.e).as_long():])
+    if isinstance(v, Adt) and v.ty == "SliceIter":
+        ref, seq = _vec_at(ex, st, v.fields[0])
+        i0 = z3.simplify(v.fields[1].e).as_long()
+        return [Ref(ref.cell, ref.path + (i,)) for i in range(i0, len(seq.fields))]
+    if isinstance(v, Adt) and v.ty == "MapIter":
+        raise Inconclusive("nested iterator adaptors")
+    raise Inconclusive("iterator %r" % (v,))
+
+
+def m_iter_any_all(ex, st, callee, args):
+    """Iterator::any / all with a pure closure: the closure is run on every item, results are combined (no short circuit)"""
+    from sym import Invoke
+    fn = _closure_or_fail(ex, callee)
+    items = _iter_items(ex, st, args[0])
+    is_any = "::any::<" in callee
+    env = args[1]
+
+    def step(i, acc):
+        # `acc` is threaded through the continuations (never shared): the closure may fork the path
+        if i == len(items):
+            if not acc:
+                return boolv(not is_any)
+            return Sc("bool", z3.Or(*acc) if is_any else z3.And(*acc))
+        return Invoke(fn, [env, items[i]], lambda st2, val: step(i + 1, acc + [val.e]))
+
+    return [(None, step(0, []))]
+
+
+def m_iter_map(ex, st, callee, args):
+    return [(None, Adt("MapIter", None, [args[0], args[1], Opaque("closure-fn", _closure_or_fail(ex, callee))]))]
+
+
+def m_map_collect(ex, st, callee, args):
+    from sym import Invoke
+    v = args[0]
+    if not (isinstance(v, Adt) and v.ty == "MapIter"):
+        raise Inconclusive("collect on %r" % (v,))
+    inner, env, fnop = v.fields
+    fn = fnop.data
+    items = _iter_items(ex, st, inner)
+
+    def step(i, done):
+        if i == len(items):
+            return Adt("Vec", None, done)
+        return Invoke(fn, [env, items[i]], lambda st2, val: step(i + 1, done + [val]))
+    return [(None, step(0, []))]
+
+
+def m_join(ex, st, callee, args):
+    ref, seq = _vec_at(ex, st, args[0])
+    sep = need(ex, st, args[1], callee)
+    chars = []
+    for i, item in enumerate(seq.fields):
+        if i:
+            chars += list(sep.fields)
+        chars += list(need(ex, st, item, callee).fields)
+    return [(None, sstr(chars))]
+
+
+def m_trim_end(ex, st, callee, args):
+    """str::trim_end: strip trailing White_Space characters; forks on how many there are"""
+    s_ = need(ex, st, args[0], callee)
+    cs = list(s_.fields)
+    out = []
+    for k in range(len(cs) + 1):      # k trailing characters are removed
+        conds = [is_whitespace(c.e) for c in cs[len(cs) - k:]]
+        if k < len(cs):
+            conds.append(z3.Not(is_whitespace(cs[len(cs) - k - 1].e)))
+        out.append((z3.And(*conds) if conds else z3.BoolVal(True), sstr(cs[:len(cs) - k])))
+    return out
+
+
 def decode_template(data):
     """rustc's packed format template: <len><literal bytes> | 0xC0 (next argument) | 0x00 (end)"""
     b = literal_chars(data)
@@ -281,6 +371,12 @@ def install(m):
         (r"^<Chars<'_> as IntoIterator>::into_iter$", lambda ex, st, c, a: [(None, a[0])]),
         (r"^<Chars<'_> as Iterator>::next$", m_chars_next),
         (r"^char::methods::<impl char>::is_whitespace$", m_is_whitespace),
+        (r"^<Chars<'_> as Iterator>::(any|all)::<", m_iter_any_all),
+        (r"^<std::slice::Iter<'_, .*> as Iterator>::(any|all)::<", m_iter_any_all),
+        (r"^<(std::slice::Iter<'_, .*>|Chars<'_>) as Iterator>::map::<", m_iter_map),
+        (r"^<Map<.*> as Iterator>::collect::<Vec<.*>>$|^<std::iter::Map<.*> as Iterator>::collect::<Vec<.*>>$", m_map_collect),
+        (r"^(core::|alloc::)?slice::<impl \[String\]>::join::<&str>$|^<\[String\] as .*Join<&str>>::join$", m_join),
+        (r"^(core::)?str::<impl str>::trim_end$", m_trim_end),
         (r"^format$|^(std|alloc)::fmt::format$", m_format),
         (r"^Vec::<.*>::into_boxed_slice$|^<\[.*\] as (std::ops::)?Index<RangeFull>>::index$|^<Vec<.*> as (std::ops::)?Index<RangeFull>>::index$", m_box_slice),
         (r"^<&\[.*\] as IntoIterator>::into_iter$|^<&Vec<.*> as IntoIterator>::into_iter$", None),
